@@ -1,8 +1,8 @@
 from _common import COMMON_NOTE
 
 META = {'title': 'Play, stop and rewind behave like a cassette deck for every command history',
- 'lean_modules': ['ZxVerif.Props.C12', 'ZxVerif.Props.C11X'],
- 'extract': ['TapeConsts'],
+ 'lean_modules': ['ZxVerif.Props.C12', 'ZxVerif.Props.C11X', 'ZxVerif.Props.C12X'],
+ 'extract': ['TapeConsts', 'TapeMachine'],
  'modelled_code': ['rustzx-core/src/zx/tape/tap.rs (play, stop, rewind, state/prev_state, end of tape in process_clocks)',
                    'rustzx-core/src/zx/tape/mod.rs (TapeImpl)',
                    'rustzx-core/src/zx/tape/empty.rs (Empty: no tape inserted; trivial, not modelled)',
@@ -27,7 +27,10 @@ META = {'title': 'Play, stop and rewind behave like a cassette deck for every co
                'and end of tape restart with a clean pilot). For the code of the pinned commit the refinement is proved for histories '
                'avoiding the three stale-state paths and refuted by witness histories (stop;stop;play, rewind while '
                'playing, play after end of tape following an earlier stop) - findings recorded as fixed in known_findings.json. The model is tied to the '
-               'Rust code on every run by a correspondence check over command histories (real Tap) and real-ROM loads.',
+               'Rust code on every run by a correspondence check over command histories (real Tap) and real-ROM loads; in addition play, '
+               'stop, rewind and process_clocks (guard, countdown, every arm of the state machine) are translated statement by '
+               'statement from tap.rs on every run (tools/extract.py, table TapeMachine) and proved equal to the repaired model '
+               'for every state (Props/C12X), so the refinement and resume theorems are restated about the source text.',
  'level_note': COMMON_NOTE + ' For the unrepaired code the full refinement is false (findings C12/*, fixed in /repo); its '
                'partial theorem covers histories without stop-while-stopped, without rewind, and not running off the end.',
  'timeout_s': {'quick': 900, 'thorough': 6 * 3600}}
